@@ -1,4 +1,5 @@
 import IslaVerif.Proofs.TreeOps
+import IslaVerif.Proofs.C10
 /-
 C12 — fuzzer expansions and mutations produce valid trees of the same kind.
 
@@ -55,6 +56,18 @@ theorem completionCheck_sound (g : Grammar) (t r : DTree) (h : completionCheck g
 /-- the checker for mutations: closed derivation tree with the same root symbol -/
 theorem mutationCheck_sound (g : Grammar) (t r : DTree) (h : mutationCheck g t r = true) :
     r.valid g = true ∧ r.closed = true ∧ r.sym = t.sym := mutationCheck_sound' g t r h
+
+/-- the string of an accepted fuzzer completion / mutation result is a word of the language of the
+input's root symbol (so it is accepted by the verified recognizer of C10) -/
+theorem completionCheck_inLang (g : Grammar) (t r : DTree) (h : completionCheck g t r = true) :
+    C10.InLang g t.sym (r.yieldC g) := by
+  obtain ⟨h1, h2, _, h4⟩ := completionCheck_sound g t r h
+  exact ⟨r, h1, h2, h4, rfl⟩
+
+theorem mutationCheck_inLang (g : Grammar) (t r : DTree) (h : mutationCheck g t r = true) :
+    C10.InLang g t.sym (r.yieldC g) := by
+  obtain ⟨h1, h2, h3⟩ := mutationCheck_sound g t r h
+  exact ⟨r, h1, h2, h3, rfl⟩
 
 /-! non-vacuity -/
 def gEx : Grammar := [("<s>", [["<a>"], ["<a>", "<s>"]]), ("<a>", [["x"], []])]
